@@ -54,6 +54,7 @@ type Conn struct {
 	stalled       bool
 	expired       bool // stalled writes fail with a timeout now, whatever the clock says
 	writeDeadline time.Time
+	readDeadline  time.Time
 	writeDelay    time.Duration // latency of every write
 
 	Name string
@@ -187,12 +188,33 @@ func (c *Conn) Pending() int {
 func (c *Conn) Read(p []byte) (int, error) {
 	c.mu.Lock()
 	defer c.mu.Unlock()
+	// like a real socket: a read deadline that has passed fails the read (pending
+	// data or not), and one that passes while the read is blocked wakes it up
+	var timer *time.Timer
+	var armedFor time.Time
+	defer func() {
+		if timer != nil {
+			timer.Stop()
+		}
+	}()
 	for {
 		if c.closed {
 			return 0, net.ErrClosed
 		}
 		if c.resetErr != nil {
 			return 0, c.resetErr
+		}
+		if !c.readDeadline.IsZero() {
+			if !time.Now().Before(c.readDeadline) {
+				return 0, &net.OpError{Op: "read", Net: "netsim", Err: ErrTimeout}
+			}
+			if !armedFor.Equal(c.readDeadline) {
+				if timer != nil {
+					timer.Stop()
+				}
+				armedFor = c.readDeadline
+				timer = time.AfterFunc(time.Until(c.readDeadline), c.cond.Broadcast)
+			}
 		}
 		if len(c.inbox) > 0 {
 			chunk := c.inbox[0]
@@ -279,8 +301,22 @@ func (c *Conn) Close() error {
 
 func (c *Conn) LocalAddr() net.Addr               { return addr("lib:" + c.Name) }
 func (c *Conn) RemoteAddr() net.Addr              { return addr("peer:" + c.Name) }
-func (c *Conn) SetDeadline(t time.Time) error     { return c.SetWriteDeadline(t) }
-func (c *Conn) SetReadDeadline(t time.Time) error { return nil }
+func (c *Conn) SetDeadline(t time.Time) error {
+	if err := c.SetReadDeadline(t); err != nil {
+		return err
+	}
+	return c.SetWriteDeadline(t)
+}
+func (c *Conn) SetReadDeadline(t time.Time) error {
+	c.mu.Lock()
+	defer c.mu.Unlock()
+	if c.closed {
+		return net.ErrClosed
+	}
+	c.readDeadline = t
+	c.cond.Broadcast()
+	return nil
+}
 func (c *Conn) SetWriteDeadline(t time.Time) error {
 	c.mu.Lock()
 	defer c.mu.Unlock()
